@@ -20,6 +20,14 @@ def hashChoice (refAbs : Bool) (h n : Int) : Int :=
   else
     if Int.tmod (wrap32 h) n < 0 then -(Int.tmod (wrap32 h) n) else Int.tmod (wrap32 h) n
 
+/-- FNV-1a, 32 bit (hash/fnv New32a): the default hasher of the hash partitioners -/
+def fnv1a32 (bs : List UInt8) : Nat :=
+  bs.foldl (fun h b => ((Nat.xor h b.toNat) * 16777619) % 4294967296) 2166136261
+
+/-- a keyed message through a default hash partitioner: the choice is a function of the key's encoded bytes
+    alone - also for a key that encodes to zero bytes (only a nil key is "keyless") -/
+def hashKeyChoice (refAbs : Bool) (key : List UInt8) (n : Int) : Int := hashChoice refAbs (fnv1a32 key) n
+
 /-- Kafka's Java client: `Utils.toPositive(hash) % numPartitions`, i.e. `(hash & 0x7fffffff) % n` -/
 def javaChoice (h n : Int) : Int := (h % 2147483648) % n
 
